@@ -398,6 +398,56 @@ func main() {
 				a.Close()
 				p.Close()
 			}
+			if failures > 0 {
+				break
+			}
+
+			// ---- a waiter on several keys leaves at the very moment a push to one of them wakes it (the
+			// unblock and the push are one transaction): the wake-up it did not use belongs to the next
+			// waiter of the key that was pushed to, whichever of its keys that is
+			for variant := 0; variant < 2 && failures == 0; variant++ {
+				vs := redisemu.VerifNewStore("")
+				w1, w2, w3, p := vs.NewClient(), vs.NewClient(), vs.NewClient(), vs.NewClient()
+				first, second := "ha", "hb"
+				pushed := second
+				if variant == 1 {
+					pushed = first
+				}
+				ch1 := async(w1, "BLPOP", first, second, "0")
+				waitBlocked(w1, time.Second)
+				time.Sleep(2 * time.Millisecond)
+				ch3 := async(w3, "BLPOP", first, "0")
+				waitBlocked(w3, time.Second)
+				time.Sleep(2 * time.Millisecond)
+				ch2 := async(w2, "BRPOP", second, "0")
+				waitBlocked(w2, time.Second)
+				time.Sleep(2 * time.Millisecond)
+				do(p, "MULTI")
+				do(p, "CLIENT", "UNBLOCK", fmt.Sprint(w1.ID()))
+				do(p, "RPUSH", pushed, "x")
+				do(p, "EXEC")
+				steps := []string{"W1: BLPOP ha hb 0", "W3: BLPOP ha 0", "W2: BRPOP hb 0", "P: MULTI; CLIENT UNBLOCK <W1>; RPUSH " + pushed + " x; EXEC"}
+				get(ch1, 500*time.Millisecond)
+				served, other := ch2, ch3
+				servedC, otherC := w2, w3
+				if pushed == first {
+					served, other, servedC, otherC = ch3, ch2, w3, w2
+				}
+				rs, ok := get(served, 800*time.Millisecond)
+				if !ok || !strings.Contains(rs.reply, "x") {
+					left := strings.TrimSpace(do(p, "LLEN", pushed))
+					fail("handoff", round, steps, fmt.Sprintf("lost wake-up: the waiter on %s is still blocked (done=%v reply=%q) although the list holds %s element(s) and the client the push woke has left", pushed, ok, rs.reply, left))
+					do(p, "CLIENT", "UNBLOCK", fmt.Sprint(servedC.ID()))
+					get(served, time.Second)
+				}
+				do(p, "CLIENT", "UNBLOCK", fmt.Sprint(otherC.ID()))
+				get(other, time.Second)
+				stats["handoff_checks"]++
+				w1.Close()
+				w2.Close()
+				w3.Close()
+				p.Close()
+			}
 		}
 	}
 
@@ -653,6 +703,52 @@ func main() {
 				case <-time.After(time.Second):
 					close(gate)
 					get(ch, 100*time.Millisecond)
+					do(p, "CLIENT", "UNBLOCK", fmt.Sprint(target))
+					get(ch, time.Second)
+				}
+				redisemu.VerifSetPointHook(nil)
+			}
+
+			// ---- unblock arriving after a wake-up that found nothing, before the client waits again
+			// (schedule point after the failed retry): it ends the command all the same
+			if failures == 0 {
+				gate := make(chan struct{})
+				parked := make(chan struct{}, 1)
+				target := a.ID()
+				redisemu.VerifSetPointHook(func(name string, id int64) {
+					if id == target && name == "after-failed-retry" {
+						select {
+						case parked <- struct{}{}:
+							<-gate
+						default:
+						}
+					}
+				})
+				ch := async(a, mk(tmpl, "tk", "0")...)
+				if waitBlocked(a, time.Second) {
+					time.Sleep(2 * time.Millisecond)
+					// push and steal in one transaction: A is woken and finds nothing
+					do(p, "MULTI")
+					do(p, "RPUSH", "tk", "x")
+					do(p, "LPOP", "tk")
+					do(p, "EXEC")
+					select {
+					case <-parked:
+						ur := do(p, "CLIENT", "UNBLOCK", fmt.Sprint(target))
+						close(gate)
+						if _, done := get(ch, 500*time.Millisecond); !done {
+							fail("unblock-after-vain-wake", round, []string{"A: " + strings.Join(mk(tmpl, "tk", "0"), " "), "P: MULTI; RPUSH tk x; LPOP tk; EXEC (A is woken in vain, parked before it waits again)", "P: CLIENT UNBLOCK <A> -> " + strings.TrimSpace(ur), "A: resumes"},
+								"a CLIENT UNBLOCK that arrived between a wake-up that found nothing and the next wait was lost: the client blocks again")
+							do(p, "CLIENT", "UNBLOCK", fmt.Sprint(target))
+							get(ch, time.Second)
+						}
+						stats["unblock_after_vain_wake_checks"]++
+					case <-time.After(time.Second):
+						close(gate)
+						do(p, "CLIENT", "UNBLOCK", fmt.Sprint(target))
+						get(ch, time.Second)
+					}
+				} else {
 					do(p, "CLIENT", "UNBLOCK", fmt.Sprint(target))
 					get(ch, time.Second)
 				}
